@@ -118,6 +118,7 @@ def check(ctx):
     check_counter_capacity(ctx)
     check_correlation_backfill(ctx)
     check_zero_norm_guard(ctx)
+    check_votes_counted_where_cast(ctx)
     check_pearson_form(ctx)
     # neighbours and correlations of one bootstrap iteration are paired
     # by position: the two lists are filled in lock-step
@@ -813,3 +814,38 @@ def check_pearson_form(ctx, rule='R-ARITH/pearson'):
                'matrices' if ok else
                f'_correlation_dot_cpu returns {fmt_term(t)[:90]}, not the '
                'product of the prepared arr0 and the prepared arr1')
+
+
+def check_votes_counted_where_cast(ctx, rule='R-PROV/votes-where-cast'):
+    """the per-type totals add up every vote of every leaf of the type.
+    Which entries of the vote table are read is therefore decided by the
+    type of the column alone: no index with which `vote_array` is read in
+    aggregate_votes derives from the correlation table (a vote cast with
+    correlation exactly 0.0 is a vote)."""
+    db = ctx.db
+    fi = db.fn('type_assignment.election:aggregate_votes')
+    ctx.touch(fi)
+    cfg = cfg_of(fi)
+    rd = rd_of(fi)
+    n = 0
+    for node in cfg.nodes:
+        if node.id not in rd.live or node.ast is None or node.kind not in (
+                'stmt', 'return'):
+            continue
+        for s in ast.walk(node.ast):
+            if not (isinstance(s, ast.Subscript) and isinstance(
+                    s.ctx, ast.Load) and isinstance(s.value, ast.Name)
+                    and s.value.id == 'vote_array'):
+                continue
+            n += 1
+            sl = backward_slice(fi, s.slice, node.id)
+            ok = 'correlation_array' not in sl.params
+            ctx.ob(rule, f'{fi.qual}:read#{n - 1}', fi.loc(s), ok,
+                   'the votes read are chosen by the column\'s type'
+                   if ok else
+                   f'`{unparse(s)[:60]}` reads the vote table at positions '
+                   'that derive from the correlation table: votes cast '
+                   'with a correlation of exactly 0.0 are not counted, '
+                   'and the shares no longer add up')
+    if n == 0:
+        raise AnalysisError('aggregate_votes: no read of vote_array found')
